@@ -2,6 +2,7 @@ package c13
 
 import (
 	"bytes"
+	"sync/atomic"
 	"fmt"
 	"sort"
 	"testing"
@@ -516,6 +517,80 @@ func coincidence(r *report.Run, algo string, i int) error {
 	})
 }
 
+// coincidenceSubmit: while the first forwarding of a freshly submitted bundle is choosing its peers (the peers answer
+// the question for their endpoint ID slowly - yielding, never blocking - and the first such question triggers the
+// event), another peer appears and makes the node go over its pending bundles: two selections for one bundle overlap.
+// Variant: the submissions coincide with the 10 s retry job instead. No bundle may reach a peer twice.
+func coincidenceSubmit(r *report.Run, algo string, i int) error {
+	return bubble.Run(nil, func(t *testing.T) {
+		s, err := nodesim.New(nodesim.Config{Routing: nodesim.RoutingConf(algo)})
+		if err != nil {
+			return
+		}
+		defer s.Close()
+		sc := &scenario{r: r, algo: algo, s: s, up: map[string]bool{}, byPID: map[string]*tracked{}, byID: map[string]*tracked{}}
+		sc.peerUp("a")
+		sc.peerUp("b")
+		sc.check(false)
+		atTick := i%3 == 2
+		var armed int32
+		for _, n := range []string{"a", "b"} {
+			if p := s.Peer(n); p != nil {
+				p.IDSpin = 300 + 200*(i%5)
+				if !atTick {
+					p.OnIDLookup = func() {
+						if atomic.CompareAndSwapInt32(&armed, 1, 0) {
+							sc.up["c"] = true
+							go s.PeerUpNoWait("c")
+						}
+					}
+				}
+			}
+		}
+		if atTick {
+			sc.hist = []string{"up_a", "up_b", "sleep to 1 ns before the retry tick", "submit x3 from three goroutines together with the tick"}
+			time.Sleep(10*time.Second - time.Nanosecond)
+			s.Wait()
+		} else {
+			sc.hist = []string{"up_a", "up_b", "submit x3", "peer c appears while the first selection of peers is under way"}
+		}
+		s.Step("submit_burst", fmt.Sprintf("at_tick=%v", atTick))
+		atomic.StoreInt32(&armed, 1)
+		for k := 0; k < 3; k++ {
+			sc.n++
+			pid := fmt.Sprintf("x%d", sc.n)
+			b, err := bpv7.Builder().CRC(bpv7.CRC32).Source("dtn://node/app").Destination("dtn://far/in").CreationTimestampNow().Lifetime("24h").
+				PayloadBlock(nodesim.Payload(pid, 4)).Build()
+			if err != nil {
+				panic(err)
+			}
+			sc.byPID[pid] = &tracked{pid: pid, dest: "far", okTo: map[string]int64{}, failedTo: map[string]bool{}}
+			go func() {
+				if atTick {
+					time.Sleep(time.Nanosecond)
+				}
+				s.Core.SendBundle(&b)
+			}()
+		}
+		if atTick {
+			time.Sleep(time.Nanosecond)
+		}
+		s.Wait()
+		time.Sleep(2 * time.Second)
+		s.Wait()
+		sc.check(false)
+		s.Tick(10 * time.Second)
+		sc.check(false)
+		if !sc.viol {
+			r.Nontrivial("coincidence-submit", algo, i)
+			r.Count("coincidence.submit_runs", 1)
+			if !atTick && atomic.LoadInt32(&armed) == 0 {
+				r.Count("coincidence.peer_appeared_during_selection", 1)
+			}
+		}
+	})
+}
+
 var algos = []string{"epidemic", "spray", "binary_spray", "prophet", "dtlsr", "sensor-mule"}
 
 func TestCheck(t *testing.T) {
@@ -608,6 +683,14 @@ func TestCheck(t *testing.T) {
 		run(algos[i%len(algos)], scripts[i/len(algos)])
 	})
 
+	for _, a := range []string{"epidemic", "prophet", "spray"} {
+		a := a
+		r.Group("coincidence-submit-"+a, r.Pick(60, 1700), func(i int, rng *report.Rand) {
+			if err := coincidenceSubmit(r, a, i); err != nil {
+				r.Violation("c13.node-deadlock-or-panic", err.Error(), map[string]interface{}{"algorithm": a, "workload": "coincidence-submit"})
+			}
+		})
+	}
 	for _, a := range []string{"epidemic", "prophet", "spray"} {
 		a := a
 		r.Group("coincidence-"+a, r.Pick(60, 1700), func(i int, rng *report.Rand) {
